@@ -19,9 +19,11 @@ from tdda.constraints.base import DatasetConstraints, STANDARD_FIELD_CONSTRAINTS
 from tdda.constraints import verify_df, discover_df  # noqa: E402
 from props import c02  # noqa: E402
 
-NAMES = ['a', 'b c', 'été', '日本', 'q"uote', 'back\\slash', 'x y', 'n\u0085l', 'tab\tname', '#hash', 'min', 'é']
+NAMES = ['a', 'b c', 'été', '日本', 'q"uote', 'back\\slash', 'x y', 'n\u0085l', 'tab\tname', '#hash', 'min', 'é',
+         'e\u0301te\u0301', '\u2126 ohm', '\u212bngstr\u00f6m', '\ufb01']
 STRS = ['a', '', ' ', 'été', '日本', 'q"t', "it's", 'back\\slash', 'new\nline', 'x y', 'n\u0085l', 'p q', 'tab\t',
-        '\x1c', '\x0b', 'trailing  ', '\\d+', '^[A-Z]{2}\\-\\d+$', '^"$', "^'$", '\U0001f600']
+        '\x1c', '\x0b', 'trailing  ', '\\d+', '^[A-Z]{2}\\-\\d+$', '^"$', "^'$", '\U0001f600',
+        'cafe\u0301', '\u2126', '\u212b', 'ﬁn']
 DATES = ['2020-01-02', '2020-01-02 03:04:05', '1999-12-31 23:59:59.500000', '2000-02-29T12:00:00', '2021/6/5',
          '2021-06-15 08:30:00.000001']
 DATE_LIKE = re.compile(r'^\d{4}[-/]\d{1,2}[-/]\d{1,2}')
@@ -364,7 +366,14 @@ class C09(core.Prop):
     def oracle(self, case):
         F = []
         fail = lambda clause, detail, key=None: F.append(core.Failure(clause, case, detail, key or clause))
-        d = tempfile.mkdtemp(prefix='c09_')
+        # every case of a run writes to the same paths (constraint files regenerated in place, as a pipeline does)
+        if getattr(self, '_wdir', None) is None:
+            self._wdir = tempfile.mkdtemp(prefix='c09_')
+            import atexit
+            atexit.register(lambda p_=self._wdir: shutil.rmtree(p_, ignore_errors=True))
+        d = self._wdir
+        for fn_ in os.listdir(d):
+            os.remove(os.path.join(d, fn_))
         try:
             if 'discover' in case:
                 df = cx.to_df(case['discover'])
@@ -492,7 +501,7 @@ class C09(core.Prop):
                 except Exception as e:
                     fail('unknown-raises', '%s: %s' % (type(e).__name__, str(e)[:150]), 'unknown-raises:' + type(e).__name__)
         finally:
-            shutil.rmtree(d, ignore_errors=True)
+            pass
         return F
 
     def _date_prec(self, case):
